@@ -263,6 +263,9 @@ ResampleSpacingDivOK(v, k, w, closing) ==
     \E m1 \in {k, k - 1} :
         /\ m1 >= 1
         /\ LET e == SpacingDivSamples(v, k, m1) IN SamplesMatch(w, IF closing THEN Append(e, e[1]) ELSE e)
+SpacingDivMayFail(v, k, closing) ==
+    \E m1 \in {k, k - 1} : m1 >= 1 /\
+        LET e == SpacingDivSamples(v, k, m1) IN Len(DedupR(IF closing THEN Append(e, e[1]) ELSE e)) < 2
 \* may the construction legitimately fail (fewer than two distinct samples)?
 SpacingMayFail(v, s2, closing) ==
     \E m1 \in SpacingIntervals(v, s2) : m1 >= 0 /\
